@@ -66,9 +66,11 @@ Qed.
 Section SEM.
   Variable re_match : string -> string -> bool.
   Variable parse_float : string -> option Q.
+  Variable json_get : string -> list string -> string.
+  Variable hash_labels : list (string * string) -> Z.
   Variable tie : forall A : Type, list A -> list A.
   Variable db : database.
-  Notation evr := (ev re_match parse_float tie db).
+  Notation evr := (ev re_match parse_float json_get hash_labels tie db).
 
   (* the row passes the conjunct (WHERE keeps a row iff the condition is a non-zero number) *)
   Definition passes (r : row) (e : expr) : Prop := truthy (evr e [r]) = Some true.
